@@ -1,6 +1,8 @@
 package main
 
 import (
+	"go/constant"
+	"go/types"
 	"bufio"
 	"encoding/json"
 	"fmt"
@@ -305,4 +307,18 @@ func (c *Ctx) Finish(seed int) int {
 		return 2
 	}
 	return 0
+}
+
+// ConstInt resolves a package-level integer constant by name.
+func (c *Ctx) ConstInt(pkgShort, name string) (int64, bool) {
+	pk := c.P.Pkg(pkgShort)
+	if pk == nil {
+		return 0, false
+	}
+	obj, ok := pk.Types.Scope().Lookup(name).(*types.Const)
+	if !ok || obj.Val().Kind() != constant.Int {
+		return 0, false
+	}
+	v, exact := constant.Int64Val(obj.Val())
+	return v, exact
 }
